@@ -651,17 +651,21 @@ pub fn replay_c09_dev(ctx: &Ctx, c: &GenCase) -> Result<(), Fail> {
 // ------------------------------------------------------------------------------------------
 
 /// `pfverif digest-cases <file>`: print one digest per case
-pub fn digest_cases(path: &str) -> i32 {
+pub fn digest_cases(path: &str, start: usize) -> i32 {
     let Ok(b) = std::fs::read(path) else { return 2 };
     let Ok(cases) = serde_json::from_slice::<Vec<GenCase>>(&b) else { return 2 };
-    let mut s = String::new();
-    for c in &cases {
-        match c.run() {
-            Ok(o) => s.push_str(&format!("{}\n", util::digest128(&o))),
-            Err(_) => s.push_str("ERR\n"),
-        }
+    // the list is walked from `start` (wrapping around) - which generator is the first of its protocol, of its
+    // configuration, of the process differs from process to process - and printed in list order
+    let n = cases.len();
+    let mut digests: Vec<String> = vec![String::new(); n];
+    for k in 0..n {
+        let i = (start + k) % n.max(1);
+        digests[i] = match cases[i].run() {
+            Ok(o) => util::digest128(&o),
+            Err(_) => "ERR".to_string(),
+        };
     }
-    print!("{}", s);
+    print!("{}", digests.iter().map(|d| format!("{}\n", d)).collect::<String>());
     0
 }
 
@@ -801,7 +805,7 @@ pub fn run_c07(ctx: &Ctx) -> Outcome {
     let children: Vec<_> = (0..3)
         .map(|k| {
             let mut cmd = Command::new(&exe);
-            cmd.args(["digest-cases", &path]).stdout(Stdio::piped()).stderr(Stdio::null());
+            cmd.args(["digest-cases", &path, &(k * list.len() / 3 + k).to_string()]).stdout(Stdio::piped()).stderr(Stdio::null());
             match k {
                 0 => {}
                 1 => {
